@@ -235,6 +235,12 @@ def genSpec (s : St) (ws : List String) : Option (List (Nat × Option Hash × Bo
     let p ← s.pool[o]?
     let r ← s.pool[y]?
     pure [(p.height, some r.hash, false)]
+  | some "relink" => do
+    -- a copy of `of` pointing to another predecessor: same hash, unvalidated
+    let o ← natArg? ws "of"
+    let _ ← natArg? ws "prev"
+    let p ← s.pool[o]?
+    pure [(p.height, some p.hash, false)]
   | some "setheight" => do
     let o ← natArg? ws "of"
     let h ← natArg? ws "h"
